@@ -167,10 +167,11 @@ Definition exec_commit (g : cfg) (s : pst) (ordc ordu ordi : list N) (f : option
 (* close the handlers of the tables named in ord, in that order, then whatever is left
    (CachedViews.Clean in sync.Map order, then FileContainer.CloseAll in map order) *)
 Definition remove_tbl (t : N) (c : list handler) : list handler := filter (fun h => negb (N.eqb (h_tbl h) t)) c.
+(* FileContainer.CloseAll: c is the container's content *)
 Fixpoint close_all (s : pst) (c : list handler) : pst :=
   match c with
-  | [] => s
-  | h :: r => close_all (with_cont (emit s (close_ops (p_fs s) h)) (remove_tbl (h_tbl h) (p_cont s))) r
+  | [] => with_cont s []
+  | h :: r => close_all (with_cont (emit s (close_ops (p_fs s) h)) r) r
   end.
 Fixpoint close_in_order (s : pst) (ord : list N) : pst :=
   match ord with
